@@ -1599,7 +1599,7 @@ class InBodyPhase(Phase):
         ("body", startTagBody),
         ("frameset", startTagFrameset),
         (("address", "article", "aside", "blockquote", "center", "details",
-          "dir", "div", "dl", "fieldset", "figcaption", "figure",
+          "dialog", "dir", "div", "dl", "fieldset", "figcaption", "figure",
           "footer", "header", "hgroup", "main", "menu", "nav", "ol", "p",
           "section", "summary", "ul"),
          startTagCloseP),
